@@ -16,10 +16,11 @@ use std::cmp::Ordering;
 use std::collections::{BTreeMap, BTreeSet, HashMap};
 use std::panic::AssertUnwindSafe;
 use std::sync::Arc;
-use tensor_store::{HNSWDistanceMetric, ScalarValue, TensorValue};
+use tensor_store::{EmbeddingStorage, HNSWDistanceMetric, ScalarValue, SparseVector, TensorValue};
 use vector_engine::{
     DistanceMetric, EmbeddingInput, ExtendedDistanceMetric, FilterCondition, FilterValue, FilteredSearchConfig,
-    HNSWConfig, HNSWIndex, Pagination, VectorCollectionConfig, VectorEngine, VectorEngineConfig, VectorError,
+    HNSWBuildOptions, HNSWConfig, HNSWIndex, HNSWStorageStrategy, Pagination, VectorCollectionConfig, VectorEngine,
+    VectorEngineConfig, VectorError,
 };
 
 type Md = Vec<(String, i64)>;
@@ -51,6 +52,41 @@ impl Metric {
             "dot" => Metric::Dot,
             _ => Metric::Cos,
         }
+    }
+    /// the metric of an HNSW index that answers for a collection of this metric
+    fn hnsw(self) -> HNSWDistanceMetric {
+        match self {
+            Metric::Cos => HNSWDistanceMetric::Cosine,
+            Metric::Euc => HNSWDistanceMetric::Euclidean,
+            Metric::Dot => HNSWDistanceMetric::DotProduct,
+        }
+    }
+}
+
+/// how a vector gets into an HNSW index (Lean: `NodeStorage`)
+#[derive(Clone, Copy, PartialEq, Debug)]
+enum St {
+    /// `HNSWIndex::insert` / `HNSWStorageStrategy::Dense`
+    Dense,
+    /// `HNSWIndex::insert_auto` / `HNSWStorageStrategy::Auto`
+    Auto,
+    /// `HNSWIndex::insert_sparse(SparseVector::from_dense(v))`
+    Sparse,
+}
+impl St {
+    fn name(self) -> &'static str {
+        match self {
+            St::Dense => "dense",
+            St::Auto => "auto",
+            St::Sparse => "sparse",
+        }
+    }
+}
+fn insert_st(idx: &HNSWIndex, v: Vec<f32>, st: St) -> usize {
+    match st {
+        St::Dense => idx.insert(v),
+        St::Auto => idx.insert_auto(v),
+        St::Sparse => idx.insert_sparse(SparseVector::from_dense(&v)),
     }
 }
 
@@ -143,12 +179,14 @@ enum Op {
     Clear,
     /// `via_engine`: `build_and_cache_index`; otherwise its two halves `build_hnsw_index` +
     /// `cache_hnsw_index("_default", ..)` so that the harness keeps a handle on the index
-    Build { via_engine: bool },
+    /// `st`: node storage of the index built by the harness's half (`build_hnsw_index_with_options`)
+    Build { via_engine: bool, st: St },
     Create { c: String, dim: Option<usize>, m: Metric },
     Drop { c: String },
     CStore { c: String, key: String, v: Vec<i64>, md: Md },
     CDel { c: String, key: String },
-    CBuild { c: String },
+    /// `st`: how the harness, as the owner of the index, inserts the collection's vectors
+    CBuild { c: String, st: St },
     Get { key: String },
     CGet { c: String, key: String },
     Search { q: Vec<i64>, k: usize },
@@ -161,9 +199,10 @@ enum Op {
     BatchStore { inputs: Vec<(String, Vec<i64>)> },
     /// `search_similar_paginated(q, k, Pagination { skip, limit, count_total: true })`
     SearchP { q: Vec<i64>, k: usize, skip: usize, limit: Option<usize> },
-    /// `build_hnsw_index(default config)` over the default collection, then `search_with_hnsw`
-    /// (`rerank`: `search_with_hnsw_and_metric(.., Cosine)`) on the index and key list it returned
-    HSearch { q: Vec<i64>, k: usize, rerank: bool },
+    /// `build_hnsw_index_with_options(storage st, default config with distance metric m)` over the
+    /// default collection, then `search_with_hnsw` (`rerank`: `search_with_hnsw_and_metric(.., Cosine)`,
+    /// only with `m` = cosine) on the index and key list it returned
+    HSearch { q: Vec<i64>, k: usize, rerank: bool, m: Metric, st: St },
     /// harness-internal (never sent to the model): `invalidate_hnsw_cache`, used only to confirm
     /// that a violation is caused by a stale cache before charging it to a mutation
     Invalidate { c: Option<String> },
@@ -204,7 +243,7 @@ impl Op {
             Op::Drop { c } => format!("drop {c}"),
             Op::CStore { c, key, v, md } => format!("cstore {c} {key} {} {}", ints(v), mds(md)),
             Op::CDel { c, key } => format!("cdel {c} {key}"),
-            Op::CBuild { c } => format!("cbuild {c}"),
+            Op::CBuild { c, .. } => format!("cbuild {c}"),
             Op::Get { key } => format!("get {key}"),
             Op::CGet { c, key } => format!("cget {c} {key}"),
             Op::Search { q, k } => format!("search {} {k}", ints(q)),
@@ -219,7 +258,8 @@ impl Op {
                 if inputs.is_empty() { "-".to_string() } else { inputs.iter().map(|(k, v)| format!("{k}:{}", ints(v))).collect::<Vec<_>>().join(";") }
             ),
             Op::SearchP { q, k, skip, limit } => format!("searchp {} {k} {skip} {}", ints(q), limit.map_or("-".to_string(), |l| l.to_string())),
-            Op::HSearch { q, k, .. } => format!("hwith {} {k}", ints(q)),
+            Op::HSearch { q, k, m: Metric::Cos, st: St::Dense, .. } => format!("hwith {} {k}", ints(q)),
+            Op::HSearch { q, k, m, st, .. } => format!("hwithm {} {} {} {k}", m.name(), st.name(), ints(q)),
             Op::Invalidate { .. } => "noop".into(),
         }
     }
@@ -506,7 +546,7 @@ impl Runner {
                 }
                 Err(e) => Obs::Plain(format!("err {}", verr(&e))),
             },
-            Op::Build { via_engine } => {
+            Op::Build { via_engine, st } => {
                 if *via_engine {
                     match self.eng.build_and_cache_index(HNSWConfig::default()) {
                         Ok(()) => {
@@ -518,7 +558,10 @@ impl Runner {
                         Err(e) => Obs::Plain(format!("err {}", verr(&e))),
                     }
                 } else {
-                    match self.eng.build_hnsw_index(HNSWConfig::default()) {
+                    // `build_hnsw_index` is `build_hnsw_index_with_options(Dense, ..)`; the harness's half also
+                    // builds with the automatic sparse/dense node storage (cosine: the default metric)
+                    let opts = HNSWBuildOptions::new().with_storage(if *st == St::Dense { HNSWStorageStrategy::Dense } else { HNSWStorageStrategy::Auto });
+                    match self.eng.build_hnsw_index_with_options(opts) {
                         Ok((idx, keys)) => {
                             let idx = Arc::new(idx);
                             // the mapping holds STORAGE keys, as `build_and_cache_index` caches them since
@@ -593,9 +636,11 @@ impl Runner {
                 }
                 Err(e) => Obs::Plain(format!("err {}", verr(&e))),
             },
-            Op::CBuild { c } => {
-                // what a user of `cache_hnsw_index` does: index the collection's current vectors.
-                // A default `HNSWConfig` scores with cosine, so only cosine collections are indexed.
+            Op::CBuild { c, st } => {
+                // what a user of `cache_hnsw_index` does: index the collection's current vectors (held
+                // dense, by `insert_auto` or as sparse vectors: the model's answer does not depend on it).
+                // A default `HNSWConfig` scores with cosine, so only cosine collections are indexed here
+                // (collections of the other metrics with an index of their metric: stream `emb`).
                 if self.coll_metric(c) != Metric::Cos {
                     return Obs::Plain("err unsupported".into());
                 }
@@ -606,7 +651,7 @@ impl Runner {
                 }
                 let idx = HNSWIndex::with_config(HNSWConfig::default());
                 for v in &vecs {
-                    idx.insert(v.clone());
+                    insert_st(&idx, v.clone(), *st);
                 }
                 let idx = Arc::new(idx);
                 // storage keys, as in the engine's own `search_in_collection_uses_cached_hnsw`
@@ -740,9 +785,12 @@ impl Runner {
                 }
                 Obs::Plain("ok".into())
             }
-            Op::HSearch { q, k, rerank } => {
+            Op::HSearch { q, k, rerank, m, st } => {
                 let qf = f32s(q);
-                let (idx, keys) = match self.eng.build_hnsw_index(HNSWConfig::default()) {
+                let opts = HNSWBuildOptions::new()
+                    .with_storage(if *st == St::Dense { HNSWStorageStrategy::Dense } else { HNSWStorageStrategy::Auto })
+                    .with_hnsw_config(HNSWConfig::default().with_distance_metric(m.hnsw()));
+                let (idx, keys) = match self.eng.build_hnsw_index_with_options(opts) {
                     Ok(x) => x,
                     Err(e) => return Obs::Search { res: Err(format!("build_{}", verr(&e))), ann: None },
                 };
@@ -783,7 +831,8 @@ impl Runner {
                                 kind: "query_dimension_not_checked",
                                 what: format!("index over dim-{indexed_dim:?} vectors answered a query of dim {}: {r:?}", q.len()),
                             }),
-                            Ok(r) => oracle_page(op.tag(), r, q, *k, 0, *k, Metric::Cos, &self.dflt, None, false, true, viol),
+                            // the scores are those of the index's metric (re-ranked: cosine, whatever the index)
+                            Ok(r) => oracle_page(op.tag(), r, q, *k, 0, *k, if *rerank { Metric::Cos } else { *m }, &self.dflt, None, false, true, viol),
                             Err(_) => {}
                         }
                         Obs::Search { res, ann: None }
@@ -1049,11 +1098,14 @@ fn compare_search(rep: &mut Report, stream: &str, op_line: &str, res: &Result<Ve
     if merged > 0 {
         rep.hit_n("rank.cosine_near_tie_merged", merged);
     }
-    let hnsw = ma.kind == "index" || ma.kind == "ann";
+    // `index-exact`: an index answer that `small_index_search_is_exact` makes the exact top-k (stream `emb`)
+    let hnsw = ma.kind == "index" || ma.kind == "ann" || ma.kind == "index-exact";
     // score correspondence: the engine's f32 against the model's exact ingredients
     for (key, sc) in imp_res {
         if let Some(c) = ma.cands.iter().find(|c| &c.0 == key) {
-            let want = if hnsw { score_f32_hnsw(ma.a, c.1, c.2) } else { score_f32_brute(ma.m, ma.a, c.1, c.2) };
+            // an index reports `to_similarity(distance)`: cosine `1 - (1 - cos)`; Euclidean `1/(1+d)` and dot
+            // product `-(-p)` are the exhaustive scan's formulas
+            let want = if hnsw && ma.m == Metric::Cos { score_f32_hnsw(ma.a, c.1, c.2) } else { score_f32_brute(ma.m, ma.a, c.1, c.2) };
             if want.to_bits() == sc.to_bits() {
                 rep.hit("score.bit_exact");
             } else if within_tol(*sc, score_f64(ma.m, ma.a, c.1, c.2)) {
@@ -1333,7 +1385,7 @@ fn gen_seq(g: &mut Gen, focus: u64, rep: &mut Report) -> Vec<Op> {
                     Op::BatchDel { keys: ks }
                 }
                 31 => Op::Clear,
-                32..=43 => Op::Build { via_engine: g.r.chance(1, 3) },
+                32..=43 => Op::Build { via_engine: g.r.chance(1, 3), st: if g.r.chance(1, 2) { St::Auto } else { St::Dense } },
                 44..=49 => Op::Get { key },
                 50..=67 => {
                     let (q, kind) = g.query(&pool);
@@ -1360,7 +1412,11 @@ fn gen_seq(g: &mut Gen, focus: u64, rep: &mut Report) -> Vec<Op> {
                     if !q.is_empty() && nsq(&q) == 0 {
                         q[0] = 1;
                     }
-                    Op::HSearch { q, k: g.k(), rerank: g.r.chance(1, 3) }
+                    // every index metric x the two engine storage strategies; re-ranking only over a cosine index
+                    let rerank = g.r.chance(1, 4);
+                    let m = if rerank { Metric::Cos } else { *g.r.pick(&[Metric::Cos, Metric::Euc, Metric::Euc, Metric::Dot]) };
+                    let st = if g.r.chance(2, 3) { St::Auto } else { St::Dense };
+                    Op::HSearch { q, k: g.k(), rerank, m, st }
                 }
                 _ => {
                     let (q, kind) = g.query(&pool);
@@ -1390,7 +1446,7 @@ fn gen_seq(g: &mut Gen, focus: u64, rep: &mut Report) -> Vec<Op> {
                 34..=45 => {
                     // the harness indexes with the default (cosine) HNSW metric, so only cosine collections
                     let _ = &coll_metric;
-                    Op::CBuild { c }
+                    Op::CBuild { c, st: *g.r.pick(&[St::Dense, St::Auto, St::Auto, St::Sparse]) }
                 }
                 46..=51 => Op::CGet { c, key },
                 52..=79 => {
@@ -1476,7 +1532,7 @@ fn classify(ops: &[Op], at: usize, site: &str, kind: &str) -> String {
             | Op::HSearch { .. } => {
                 Some(String::new())
             }
-            Op::Drop { c } | Op::CStore { c, .. } | Op::CDel { c, .. } | Op::CBuild { c } | Op::CSearch { c, .. } | Op::CSearchF { c, .. } => Some(format!("c:{c}")),
+            Op::Drop { c } | Op::CStore { c, .. } | Op::CDel { c, .. } | Op::CBuild { c, .. } | Op::CSearch { c, .. } | Op::CSearchF { c, .. } => Some(format!("c:{c}")),
             _ => None,
         }
     };
@@ -1546,6 +1602,9 @@ fn run_seq(cx: &mut Ctx, stream: &str, ops: &[Op]) {
         r.extra_lines.clear();
         let (obs, viol) = r.exec(op);
         cx.rep.hit(&format!("op.{}", op.tag()));
+        if let Op::HSearch { m, st, .. } = op {
+            cx.rep.hit(&format!("explicit_index.{}.{}", m.name(), st.name()));
+        }
         let line = match (&obs, op) {
             (Obs::Search { ann: Some(keys), .. }, Op::Search { q, k }) => format!("search_ann {} {k} {}", ints(q), keys_s(keys)),
             (Obs::Search { ann: Some(keys), .. }, Op::CSearch { c, q, k }) => format!("csearch_ann {c} {} {k} {}", ints(q), keys_s(keys)),
@@ -1625,11 +1684,12 @@ fn run_seq(cx: &mut Ctx, stream: &str, ops: &[Op]) {
                 }
                 // explicit-index entry points: the index was built from the current data just now, so with
                 // at most 32 vectors the answer must be the exact top-k (small_index_search_is_exact)
-                if let (Op::HSearch { q, k, .. }, Ok(v)) = (op, res) {
+                if let (Op::HSearch { q, k, rerank, m, .. }, Ok(v)) = (op, res) {
                     let sp = &r.dflt;
-                    if nsq(q) > 0 && *k > 0 && sp.items.len() <= 32 && sp.items.values().next().map_or(false, |x| x.0.len() == q.len()) {
+                    // (a re-ranked answer is the cosine top-k of the candidates the index picked by ITS metric)
+                    if (!*rerank || *m == Metric::Cos) && nsq(q) > 0 && *k > 0 && sp.items.len() <= 32 && sp.items.values().next().map_or(false, |x| x.0.len() == q.len()) {
                         let mut scratch = Vec::new();
-                        oracle_page("small-index", v, q, *k, 0, *k, Metric::Cos, sp, None, false, false, &mut scratch);
+                        oracle_page("small-index", v, q, *k, 0, *k, *m, sp, None, false, false, &mut scratch);
                         let exact = !scratch.iter().any(|x| x.kind == "missed_match" || x.kind == "not_topk");
                         cx.rep.hit("search.explicit_small_index.checked_exact");
                         cx.rep.compare(&format!("{stream}.small_index_is_exact"), || json!({"ops": ops_json(&ops[..=i]), "impl_result": format!("{res:?}")}), if exact { "exact" } else { "not-exact" }, "exact");
@@ -1680,7 +1740,7 @@ fn run_seq(cx: &mut Ctx, stream: &str, ops: &[Op]) {
 fn directed() -> Vec<(&'static str, Vec<Op>)> {
     let s = |k: &str, v: &[i64]| Op::Store { key: k.into(), v: v.to_vec() };
     let se = |q: &[i64], k: usize| Op::Search { q: q.to_vec(), k };
-    let b = Op::Build { via_engine: true };
+    let b = Op::Build { via_engine: true, st: St::Dense };
     let cs = |c: &str, k: &str, v: &[i64], md: &[(&str, i64)]| Op::CStore {
         c: c.into(),
         key: k.into(),
@@ -1688,7 +1748,8 @@ fn directed() -> Vec<(&'static str, Vec<Op>)> {
         md: md.iter().map(|(a, b)| (a.to_string(), *b)).collect(),
     };
     let pf_md = |v: i64| -> Md { vec![("f".to_string(), v)] };
-    let hs = |q: &[i64], k: usize, rerank: bool| Op::HSearch { q: q.to_vec(), k, rerank };
+    let hs = |q: &[i64], k: usize, rerank: bool| Op::HSearch { q: q.to_vec(), k, rerank, m: Metric::Cos, st: St::Dense };
+    let hm = |q: &[i64], k: usize, m: Metric, st: St| Op::HSearch { q: q.to_vec(), k, rerank: false, m, st };
     vec![
         // regression cases of 733b279c: the explicit-index entry points must refuse a query of another
         // dimension than the index (longer: scored on a prefix before the fix; shorter: panicked)
@@ -1696,6 +1757,29 @@ fn directed() -> Vec<(&'static str, Vec<Op>)> {
         ("explicit-index-shorter-query", vec![s("a", &[1, 0, 0]), s("b", &[0, 1, 0]), hs(&[1, 0], 2, false), hs(&[0, 1, 0], 1, false)]),
         ("explicit-index-rerank-longer-query", vec![s("a", &[1, 0, 0]), s("b", &[0, 1, 0]), hs(&[1, 0, 0], 2, true), hs(&[1, 0, 0, 5], 2, true), hs(&[0, 1, 0], 2, true)]),
         ("explicit-index-rerank-shorter-query", vec![s("a", &[1, 0, 0]), s("b", &[0, 1, 0]), hs(&[1, 0], 2, true), hs(&[0, 1, 0], 1, true)]),
+        // highly sparse vectors behind an index of each metric, nodes held by the automatic sparse/dense
+        // strategy and dense; the queries have mass where the sparse nodes are zero (a distance taken over
+        // a node's stored entries only ranks `a` first and reports 1.0 for it; the truth is b, a, d, c)
+        (
+            "explicit-index-sparse-nodes-each-metric",
+            vec![
+                s("a", &[1, 0, 0, 0, 0, 0, 0, 0]),
+                s("b", &[0, 0, 0, 0, 0, 0, 0, 3]),
+                s("c", &[0, 2, 0, 0, 0, 0, 0, 0]),
+                s("d", &[1, 1, 1, 1, 1, 1, 1, 1]),
+                Op::SearchM { m: Metric::Euc, q: vec![1, 0, 0, 0, 0, 0, 0, 2], k: 4 },
+                hm(&[1, 0, 0, 0, 0, 0, 0, 2], 4, Metric::Euc, St::Dense),
+                hm(&[1, 0, 0, 0, 0, 0, 0, 2], 4, Metric::Euc, St::Auto),
+                hm(&[1, 0, 0, 0, 0, 0, 0, 2], 1, Metric::Euc, St::Auto),
+                hm(&[2, 0, 0, 0, 0, 0, 0, 0], 4, Metric::Euc, St::Auto),
+                hm(&[1, 0, 0, 0, 0, 0, 0, 2], 4, Metric::Dot, St::Auto),
+                hm(&[1, 0, 0, 0, 0, 0, 0, 2], 4, Metric::Cos, St::Auto),
+                hm(&[0, 0, 5, -1, 0, 0, 0, 0], 3, Metric::Euc, St::Auto),
+                hm(&[0, 0, 5, -1, 0, 0, 0, 0], 3, Metric::Cos, St::Auto),
+                Op::Build { via_engine: false, st: St::Auto },
+                se(&[1, 0, 0, 0, 0, 0, 0, 2], 4),
+            ],
+        ),
         (
             "explicit-index-arguments",
             vec![hs(&[1, 0], 2, false), s("a", &[1, 0, 0]), hs(&[], 2, false), hs(&[1, 0, 0], 0, false), s("b", &[0, 1]), hs(&[1, 0, 0], 2, false), hs(&[1, 0], 2, true)],
@@ -1741,7 +1825,7 @@ fn directed() -> Vec<(&'static str, Vec<Op>)> {
                 Op::Create { c: "c0".into(), dim: None, m: Metric::Cos },
                 cs("c0", "a", &[1, 0, 0], &[]),
                 cs("c0", "b", &[0, 1, 0], &[]),
-                Op::CBuild { c: "c0".into() },
+                Op::CBuild { c: "c0".into(), st: St::Dense },
                 Op::Drop { c: "c0".into() },
                 Op::CSearch { c: "c0".into(), q: vec![1, 0, 0], k: 5 },
             ],
@@ -1751,11 +1835,11 @@ fn directed() -> Vec<(&'static str, Vec<Op>)> {
             vec![
                 cs("c1", "a", &[1, 0, 0], &[]),
                 cs("c1", "b", &[0, 1, 0], &[]),
-                Op::CBuild { c: "c1".into() },
+                Op::CBuild { c: "c1".into(), st: St::Dense },
                 Op::CSearch { c: "c1".into(), q: vec![1, 0, 0], k: 5 },
                 cs("c1", "a", &[0, 0, 1], &[]),
                 Op::CSearch { c: "c1".into(), q: vec![1, 0, 0], k: 5 },
-                Op::CBuild { c: "c1".into() },
+                Op::CBuild { c: "c1".into(), st: St::Dense },
                 Op::CDel { c: "c1".into(), key: "b".into() },
                 Op::CSearch { c: "c1".into(), q: vec![0, 1, 0], k: 5 },
             ],
@@ -1838,14 +1922,14 @@ fn directed() -> Vec<(&'static str, Vec<Op>)> {
         ("index-shorter-query", vec![s("a", &[1, 0, 0]), s("b", &[0, 1, 0]), b.clone(), se(&[1, 0], 5), se(&[0, 1, 0], 5)]),
         (
             "index-other-dimension-stored",
-            vec![s("a", &[1, 0, 0]), s("b", &[0, 1, 0]), Op::Build { via_engine: false }, Op::BatchDel { keys: vec!["zz".into()] }, se(&[0, 1, 0], 5), se(&[1, 0], 5)],
+            vec![s("a", &[1, 0, 0]), s("b", &[0, 1, 0]), Op::Build { via_engine: false, st: St::Dense }, Op::BatchDel { keys: vec!["zz".into()] }, se(&[0, 1, 0], 5), se(&[1, 0], 5)],
         ),
         (
             "collection-index-other-dimension-query",
             vec![
                 cs("c1", "a", &[1, 0, 0], &[("f", 1)]),
                 cs("c1", "b", &[0, 1, 0], &[("f", 1)]),
-                Op::CBuild { c: "c1".into() },
+                Op::CBuild { c: "c1".into(), st: St::Dense },
                 Op::CSearch { c: "c1".into(), q: vec![1, 0, 0, 5], k: 5 },
                 Op::CSearch { c: "c1".into(), q: vec![1, 0], k: 5 },
                 Op::CSearchF { c: "c1".into(), q: vec![1, 0], k: 5, strat: Strat::Post, os: 3, f: F::Ex("f".into()) },
@@ -1989,6 +2073,14 @@ fn hnsw_case(rep: &mut Report, m: &mut Model, r: &mut Rng, big: bool, directed: 
     // are rounded: a third of the random cases use non-integer coordinates (x / 7, x / 1000.3)
     let div: f32 = if directed_case { 1.0 } else { *r.pick(&[1.0f32, 1.0, 7.0, 1000.3]) };
     rep.hit(if div == 1.0 { "hnsw.data.integer" } else { "hnsw.data.non_integer" });
+    // Node storage.  With sparse nodes the graph is still compared insert by insert, which ties the
+    // distances pruning takes BETWEEN NODES (private `distance_embeddings`: sparse-sparse merge, sparse-dense)
+    // to the `distance_dense` values the model is given: on integer data under the Euclidean and
+    // dot-product metrics both are exact, so they agree bit for bit whatever the representation (the
+    // cosine arms round differently — f64 in SparseVector, f32 in the dense arm — so cosine stays dense here)
+    let storage: Option<St> = if !directed_case && div == 1.0 && metric != HNSWDistanceMetric::Cosine && r.chance(3, 4) { Some(*r.pick(&[St::Auto, St::Auto, St::Sparse])) } else { Some(St::Dense) };
+    let mixed_storage = !directed_case && div == 1.0 && metric != HNSWDistanceMetric::Cosine && r.chance(1, 4);
+    rep.hit(&format!("hnsw.node_storage.{}", if mixed_storage { "mixed" } else { storage.map_or("dense", |s| s.name()) }));
     let f32s = |v: &[i64]| -> Vec<f32> { v.iter().map(|x| *x as f32 / div).collect() };
     let mut lg = LevelGen { seed: 42, ml };
     let head = format!("hnew {cm} {cm0} {efc}");
@@ -2060,9 +2152,10 @@ fn hnsw_case(rep: &mut Report, m: &mut Model, r: &mut Rng, big: bool, directed: 
             rep.hit("hnsw.skipped_nan_distance");
             return;
         }
-        let id = guarded(AssertUnwindSafe(|| idx.insert(vf.clone())));
+        let st = if mixed_storage { [St::Dense, St::Auto, St::Sparse][i % 3] } else { storage.unwrap_or(St::Dense) };
+        let id = guarded(AssertUnwindSafe(|| insert_st(&idx, vf.clone(), st)));
         let line = format!("hins {level} {}", if ds.is_empty() { "-".to_string() } else { ds.iter().map(|d| dist_key(*d).to_string()).collect::<Vec<_>>().join(",") });
-        trace.push(format!("{line}   # v={}", ints(v)));
+        trace.push(format!("{line}   # v={} {}", ints(v), st.name()));
         let ans = m.ask(&line);
         let imp = match id {
             Ok(id) => format!("ok {id}"),
@@ -2106,6 +2199,598 @@ fn hnsw_stream(rep: &mut Report, m: &mut Model, root: &Rng, scale: u64) {
     // thorough tier: three times as many cases per unit of scale, a third of them with up to 140 nodes
     for _ in 0..60 * scale * if scale > 1 { 3 } else { 1 } {
         hnsw_case(rep, m, &mut r, scale > 1, None);
+    }
+}
+
+
+// ------------------------------------------------------------------ a collection with an index of ITS metric
+//
+// Lean: `ECol` (EmbModel.lean).  One named collection configured with any of the three metrics; its
+// owner (the harness) indexes the current vectors with an HNSW index OF THAT METRIC, nodes held
+// dense / by `insert_auto` / as sparse vectors, and hands it to `cache_hnsw_index`.  The property:
+// whatever the node representation, `search_in_collection` answering from that index names current
+// keys with their true scores under the collection's metric.
+
+const ECOLL: &str = "geo";
+
+#[derive(Clone, Debug)]
+enum EOp {
+    Store { key: String, v: Vec<i64> },
+    Del { key: String },
+    Build { st: St },
+    Inval,
+    Get { key: String },
+    Search { q: Vec<i64>, k: usize },
+}
+impl EOp {
+    fn line(&self) -> String {
+        match self {
+            EOp::Store { key, v } => format!("e store {key} {}", ints(v)),
+            EOp::Del { key } => format!("e del {key}"),
+            EOp::Build { st } => format!("e build {}", st.name()),
+            EOp::Inval => "e inval".into(),
+            EOp::Get { key } => format!("e get {key}"),
+            EOp::Search { q, k } => format!("e search {} {k}", ints(q)),
+        }
+    }
+    fn tag(&self) -> &'static str {
+        match self {
+            EOp::Store { .. } => "store_in_collection",
+            EOp::Del { .. } => "delete_from_collection",
+            EOp::Build { .. } => "cache_hnsw_index",
+            EOp::Inval => "invalidate_hnsw_cache",
+            EOp::Get { .. } => "get_from_collection",
+            EOp::Search { .. } => "search_in_collection",
+        }
+    }
+    fn is_mutation(&self) -> bool {
+        matches!(self, EOp::Store { .. } | EOp::Del { .. })
+    }
+}
+
+struct EmbRunner {
+    eng: VectorEngine,
+    m: Metric,
+    sp: Space,
+}
+impl EmbRunner {
+    fn new(m: Metric) -> EmbRunner {
+        let eng = VectorEngine::new();
+        eng.create_collection(ECOLL, VectorCollectionConfig::default().with_metric(m.real())).ok();
+        EmbRunner { eng, m, sp: Space::default() }
+    }
+    fn exec(&mut self, op: &EOp) -> (Obs, Vec<Viol>) {
+        let mut viol = Vec::new();
+        match guarded(AssertUnwindSafe(|| self.exec_inner(op, &mut viol))) {
+            Ok(o) => (o, viol),
+            Err(p) => {
+                viol.push(Viol { site: op.tag().to_string(), kind: "panic", what: p.clone() });
+                (Obs::Panic(p), viol)
+            }
+        }
+    }
+    fn exec_inner(&mut self, op: &EOp, viol: &mut Vec<Viol>) -> Obs {
+        match op {
+            EOp::Store { key, v } => match self.eng.store_in_collection(ECOLL, key, f32s(v)) {
+                Ok(()) => {
+                    self.sp.items.insert(key.clone(), (v.clone(), vec![]));
+                    self.sp.mutated(op.tag());
+                    Obs::Plain("ok".into())
+                }
+                Err(e) => Obs::Plain(format!("err {}", verr(&e))),
+            },
+            EOp::Del { key } => match self.eng.delete_from_collection(ECOLL, key) {
+                Ok(()) => {
+                    self.sp.items.remove(key);
+                    self.sp.mutated(op.tag());
+                    Obs::Plain("ok".into())
+                }
+                Err(e) => Obs::Plain(format!("err {}", verr(&e))),
+            },
+            EOp::Build { st } => {
+                let keys = self.eng.list_collection_keys(ECOLL);
+                let vecs: Vec<Vec<f32>> = keys.iter().map(|k| self.eng.get_from_collection(ECOLL, k).unwrap_or_default()).collect();
+                if vecs.windows(2).any(|w| w[0].len() != w[1].len()) {
+                    return Obs::Plain("err dim_mismatch".into());
+                }
+                let idx = HNSWIndex::with_config(HNSWConfig::default().with_distance_metric(self.m.hnsw()));
+                for (i, v) in vecs.iter().enumerate() {
+                    let id = insert_st(&idx, v.clone(), *st);
+                    // whichever representation was chosen, the node reads back exactly as inserted
+                    if id != i || idx.get_vector(id).as_deref() != Some(v.as_slice()) {
+                        viol.push(Viol { site: "hnsw.get_vector".into(), kind: "roundtrip_not_identity", what: format!("node {id} inserted {} as {v:?} reads back {:?}", st.name(), idx.get_vector(id)) });
+                    }
+                }
+                let idx = Arc::new(idx);
+                self.eng.cache_hnsw_index(ECOLL, idx.clone(), keys.iter().map(|k| format!("coll:{ECOLL}:emb:{k}")).collect());
+                self.sp.built = true;
+                self.sp.muts.clear();
+                let n = keys.len();
+                self.sp.index = Some((idx, keys));
+                Obs::Plain(format!("ok {n}"))
+            }
+            EOp::Inval => {
+                self.eng.invalidate_hnsw_cache(ECOLL);
+                self.sp.built = false;
+                self.sp.muts.clear();
+                self.sp.index = None;
+                Obs::Plain("ok".into())
+            }
+            EOp::Get { key } => match self.eng.get_from_collection(ECOLL, key) {
+                Ok(v) => {
+                    let shown = to_ints(&v).map_or("non-integer".to_string(), |x| ints(&x));
+                    match self.sp.items.get(key) {
+                        Some((w, _)) if to_ints(&v).as_deref() == Some(w.as_slice()) => {}
+                        other => viol.push(Viol { site: op.tag().into(), kind: "roundtrip_not_identity", what: format!("get {key} = {shown}, last stored {:?}", other.map(|x| &x.0)) }),
+                    }
+                    Obs::Plain(format!("ok {shown}"))
+                }
+                Err(e) => {
+                    if self.sp.items.contains_key(key) {
+                        viol.push(Viol { site: op.tag().into(), kind: "stored_key_not_found", what: key.clone() });
+                    }
+                    Obs::Plain(format!("err {}", verr(&e)))
+                }
+            },
+            EOp::Search { q, k } => {
+                let res = conv(self.eng.search_in_collection(ECOLL, &f32s(q), *k));
+                if let Ok(r) = &res {
+                    oracle(op.tag(), r, q, *k, self.m, &self.sp, None, true, viol);
+                }
+                Obs::Search { res, ann: None }
+            }
+        }
+    }
+}
+
+fn emb_replay(m: Metric, ops: &[EOp]) -> Vec<(usize, String, &'static str)> {
+    let mut r = EmbRunner::new(m);
+    let mut out = Vec::new();
+    for (i, op) in ops.iter().enumerate() {
+        let (_, v) = r.exec(op);
+        for x in v {
+            out.push((i, x.site, x.kind));
+        }
+    }
+    out
+}
+
+/// `<site>/<kind>` from the shrunk trace, with the conventions of `classify`: a violation at a search
+/// that follows a mutation made after the last build, gone when the cache is invalidated right after
+/// that mutation, is charged to the mutation (stale cache); a violation while the index is live names
+/// the cached-index path; anything else the entry point.
+fn emb_classify(m: Metric, ops: &[EOp], at: usize, site: &str, kind: &str) -> String {
+    if site == "hnsw.get_vector" {
+        return format!("tensor_store.{site}/{kind}");
+    }
+    let last_build = (0..at).rev().find(|i| matches!(ops[*i], EOp::Build { .. }));
+    if let (Some(b), EOp::Search { .. }) = (last_build, &ops[at]) {
+        if !(b + 1..at).any(|i| matches!(ops[i], EOp::Inval)) {
+            if let Some(mu) = (b + 1..at).find(|i| ops[*i].is_mutation()) {
+                let mut with_inval: Vec<EOp> = ops[..=mu].to_vec();
+                with_inval.push(EOp::Inval);
+                with_inval.extend_from_slice(&ops[mu + 1..=at]);
+                let still = |t: &[EOp]| emb_replay(m, t).iter().any(|(i, _, k)| *i == t.len() - 1 && *k == kind);
+                if !still(&with_inval) && still(&ops[..=at]) {
+                    return format!("vector_engine.{}/stale_hnsw_cache", ops[mu].tag());
+                }
+            } else if kind != "missed_match" && kind != "not_topk" {
+                return format!("vector_engine.{site}/with_cached_index:{kind}");
+            }
+        }
+    }
+    let kind = if kind == "missed_match" || kind == "not_topk" { "not_topk" } else { kind };
+    format!("vector_engine.{site}/{kind}")
+}
+
+fn emb_ops_json(m: Metric, ops: &[EOp]) -> Value {
+    let mut l = vec![format!("e new {}", m.name())];
+    l.extend(ops.iter().map(|o| o.line()));
+    json!(l)
+}
+
+fn run_emb(cx: &mut Ctx, stream: &str, m: Metric, ops: &[EOp]) {
+    let mut r = EmbRunner::new(m);
+    let a = cx.m.ask(&format!("e new {}", m.name()));
+    cx.rep.compare(&format!("{stream}.create_collection"), || json!({"metric": m.name()}), "ok", &a);
+    let mut nontrivial = false;
+    let mut mutated = false;
+    let mut first_violation: Option<(usize, String, &'static str, String)> = None;
+    for (i, op) in ops.iter().enumerate() {
+        let live_before = r.sp.index_live();
+        let storage = match &r.sp.index {
+            Some((idx, _)) if live_before => {
+                let st = idx.memory_stats();
+                if st.sparse_count > 0 { "sparse_nodes" } else { "dense_nodes" }
+            }
+            _ => "",
+        };
+        let (obs, viol) = r.exec(op);
+        cx.rep.hit(&format!("emb.op.{}", op.tag()));
+        let ans = cx.m.ask(&op.line());
+        let sname = format!("{stream}.{}", op.tag());
+        match &obs {
+            Obs::Plain(s0) => {
+                if s0.starts_with("ok") && op.is_mutation() {
+                    mutated = true;
+                }
+                cx.rep.compare(&sname, || json!({"ops": emb_ops_json(m, &ops[..=i])}), s0, &ans);
+            }
+            Obs::Panic(p) => {
+                cx.rep.hit("impl.panic");
+                cx.rep.compare(&sname, || json!({"ops": emb_ops_json(m, &ops[..=i])}), &format!("panic: {p}"), &ans);
+            }
+            Obs::Search { res, .. } => {
+                let mut ma = parse_model(&ans);
+                cx.rep.hit(&format!("emb.model.{}.{}", ma.kind.split(' ').next().unwrap_or(""), m.name()));
+                if ma.kind == "index" {
+                    cx.rep.hit(&format!("emb.search.via_index.{}.{storage}", m.name()));
+                    // default HNSW configuration, never more than 32 vectors: the index answer is the exact
+                    // top-k (small_index_search_is_exact + representation independence), so it is compared
+                    // with the model's ranking class for class
+                    if r.sp.items.len() <= 32 {
+                        ma.kind = "index-exact".into();
+                    }
+                }
+                if let Ok(v) = res {
+                    if v.len() > 1 {
+                        nontrivial = true;
+                    }
+                }
+                let (a, b) = compare_search(cx.rep, stream, &op.line(), res, &ma, None);
+                cx.rep.compare(&sname, || json!({"ops": emb_ops_json(m, &ops[..=i]), "impl_result": format!("{res:?}"), "model_raw": ma.raw}), &a, &b);
+            }
+        }
+        if first_violation.is_none() {
+            if let Some(v) = viol.into_iter().next() {
+                first_violation = Some((i, v.site, v.kind, v.what));
+            }
+        }
+    }
+    let key = format!("{}:{}", m.name(), ops.iter().map(|o| o.line()).collect::<Vec<_>>().join(";"));
+    cx.rep.case(stream, if nontrivial && mutated { Some(&key) } else { None });
+    if let Some((at, site, kind, what)) = first_violation {
+        cx.rep.hit(&format!("violation.{kind}"));
+        let prefix = &ops[..=at];
+        let mut fails = |cand: &[EOp]| emb_replay(m, cand).iter().any(|(_, _, k)| *k == kind);
+        let shrunk = shrink_list(prefix, &mut fails);
+        let ks = emb_replay(m, &shrunk);
+        let (sat, ssite, skind) = ks.iter().find(|(_, _, k)| *k == kind).cloned().unwrap_or((shrunk.len() - 1, site.clone(), kind));
+        let class = emb_classify(m, &shrunk, sat, &ssite, skind);
+        if cx.reported.insert(class.clone()) {
+            cx.rep.violation(&class, &what, json!({"ops": emb_ops_json(m, &shrunk[..=sat]), "found_in_stream": stream}));
+        } else {
+            cx.rep.hit(&format!("violation.repeat.{class}"));
+        }
+    }
+}
+
+fn emb_directed() -> Vec<(&'static str, Metric, Vec<EOp>)> {
+    let s = |k: &str, v: &[i64]| EOp::Store { key: k.into(), v: v.to_vec() };
+    let se = |q: &[i64], k: usize| EOp::Search { q: q.to_vec(), k };
+    let data = || vec![s("a", &[1, 0, 0, 0, 0, 0, 0, 0]), s("b", &[0, 0, 0, 0, 0, 0, 0, 3]), s("c", &[0, 2, 0, 0, 0, 0, 0, 0]), s("d", &[1, 1, 1, 1, 1, 1, 1, 1])];
+    let q: [i64; 8] = [1, 0, 0, 0, 0, 0, 0, 2];
+    let mut out = Vec::new();
+    // every metric x every node storage: exhaustive answer, then the same searches from the cached index;
+    // the query has mass at position 7, where a and c (held sparse by auto / sparse) are zero
+    for (name, m) in [("euclid", Metric::Euc), ("dot", Metric::Dot), ("cosine", Metric::Cos)] {
+        for (sn, st) in [("auto", St::Auto), ("sparse", St::Sparse), ("dense", St::Dense)] {
+            let mut ops = data();
+            ops.push(se(&q, 4));
+            ops.push(EOp::Build { st });
+            ops.push(se(&q, 4));
+            ops.push(se(&q, 1));
+            ops.push(se(&[2, 0, 0, 0, 0, 0, 0, 0], 4)); // inside a's support: a shortcut over the support is exact here
+            ops.push(se(&[0, 0, 5, -1, 0, 0, 0, 0], 3)); // disjoint from every sparse node's support
+            ops.push(EOp::Get { key: "a".into() });
+            let label: &'static str = Box::leak(format!("{name}-{sn}-nodes").into_boxed_str());
+            out.push((label, m, ops));
+        }
+    }
+    // the index is dropped by every write and rebuilt with another storage
+    let mut ops = data();
+    ops.extend([EOp::Build { st: St::Auto }, se(&q, 4), s("a", &[0, 0, 0, 0, 0, 0, 0, 2]), se(&q, 4), EOp::Build { st: St::Sparse }, se(&q, 4), EOp::Del { key: "b".into() }, se(&q, 4), EOp::Build { st: St::Dense }, se(&q, 2), EOp::Inval, se(&q, 2)]);
+    out.push(("euclid-rebuild-after-writes", Metric::Euc, ops));
+    // another dimension than the index: the guard sends the query to the exhaustive scan
+    let mut ops = data();
+    ops.extend([EOp::Build { st: St::Auto }, se(&[1, 0, 2], 4), s("e", &[0, 3, 0]), se(&[1, 0, 2], 4), EOp::Build { st: St::Auto }, se(&q, 4)]);
+    out.push(("dot-other-dimension", Metric::Dot, ops));
+    out
+}
+
+/// highly sparse vectors (the form `insert_auto` holds sparse), some dense, zero and duplicated ones
+fn sparse_vec(r: &mut Rng, dim: usize, pool: &[Vec<i64>]) -> Vec<i64> {
+    match r.below(10) {
+        0 => vec![0; dim],
+        1 if !pool.is_empty() => r.pick(pool).clone(),
+        2 | 3 => (0..dim).map(|_| r.range(-3, 3)).collect(),
+        4 => {
+            // exactly half zeros: the sparse/dense threshold of insert_auto
+            let mut v: Vec<i64> = (0..dim).map(|i| if i % 2 == 0 { 0 } else { 1 + r.below(4) as i64 }).collect();
+            r.shuffle(&mut v);
+            v
+        }
+        _ => {
+            let mut v = vec![0; dim];
+            for _ in 0..1 + r.below((dim as u64 / 3).max(1)) {
+                let i = r.below(dim as u64) as usize;
+                v[i] = *r.pick(&[1i64, 1, 2, 3, -1, -2, 5, 64]);
+            }
+            v
+        }
+    }
+}
+/// queries with mass OUTSIDE the support of the stored vectors: a stored vector plus a component at a
+/// position where it is zero, or small dense vectors
+fn off_support_query(r: &mut Rng, dim: usize, pool: &[Vec<i64>]) -> Vec<i64> {
+    match r.below(8) {
+        0 if !pool.is_empty() => r.pick(pool).clone(),
+        1 => (0..dim).map(|_| r.range(-64, 64)).collect(),
+        2..=4 if !pool.is_empty() => {
+            let mut q = r.pick(pool).clone();
+            let zeros: Vec<usize> = (0..q.len()).filter(|i| q[*i] == 0).collect();
+            for _ in 0..1 + r.below(2) {
+                if !zeros.is_empty() {
+                    let i = *r.pick(&zeros);
+                    q[i] = *r.pick(&[1i64, 2, -2, 3, 7]);
+                }
+            }
+            q
+        }
+        _ => (0..dim).map(|_| r.range(-2, 2)).collect(),
+    }
+}
+
+fn emb_gen(r: &mut Rng) -> (Metric, Vec<EOp>) {
+    let m = *r.pick(&[Metric::Euc, Metric::Euc, Metric::Dot, Metric::Dot, Metric::Cos]);
+    let dim = *r.pick(&[2usize, 4, 6, 8, 9, 16]);
+    let keys: Vec<String> = (0..3 + r.below(6)).map(|i| format!("k{i}")).collect();
+    let mut pool: Vec<Vec<i64>> = Vec::new();
+    let mut ops = Vec::new();
+    for _ in 0..3 + r.below(5) {
+        let v = sparse_vec(r, dim, &pool);
+        pool.push(v.clone());
+        ops.push(EOp::Store { key: r.pick(&keys).clone(), v });
+    }
+    let n = ops.len() + 6 + r.below(14) as usize;
+    while ops.len() < n {
+        let op = match r.below(20) {
+            0..=2 => {
+                let d = if r.chance(1, 10) { 1 + r.below(8) as usize } else { dim };
+                let v = sparse_vec(r, d, &pool);
+                if d == dim {
+                    pool.push(v.clone());
+                }
+                EOp::Store { key: r.pick(&keys).clone(), v }
+            }
+            3 => EOp::Del { key: r.pick(&keys).clone() },
+            4..=8 => EOp::Build { st: *r.pick(&[St::Auto, St::Auto, St::Sparse, St::Dense]) },
+            9 => EOp::Get { key: r.pick(&keys).clone() },
+            10 if r.chance(1, 3) => EOp::Inval,
+            _ => {
+                let q = if r.chance(1, 12) { (0..1 + r.below(8) as usize).map(|_| r.range(-2, 2)).collect() } else { off_support_query(r, dim, &pool) };
+                let q = if r.chance(1, 40) { vec![] } else { q };
+                EOp::Search { q, k: *r.pick(&[1usize, 2, 3, 5, 50, 0]) }
+            }
+        };
+        // after a build, look at it at once
+        let probe = matches!(op, EOp::Build { .. });
+        ops.push(op);
+        if probe {
+            ops.push(EOp::Search { q: off_support_query(r, dim, &pool), k: *r.pick(&[1usize, 3, 50]) });
+        }
+    }
+    (m, ops)
+}
+
+fn emb_stream(cx: &mut Ctx, root: &Rng, scale: u64) {
+    let base = root.fork("emb");
+    for i in 0..220 * scale {
+        let mut r = base.fork(&i.to_string());
+        let (m, ops) = emb_gen(&mut r);
+        run_emb(cx, "emb", m, &ops);
+    }
+}
+
+// ------------------------------------------------------------------ the index's node representations, directly
+//
+// Stream `hnsw.storage`: a real `HNSWIndex` of each metric whose nodes are inserted with `insert` /
+// `insert_auto` / `insert_sparse` (one strategy per case, or mixed node by node).  Judged on the real
+// outputs, against exact integer arithmetic done here:
+//  * every node reads back exactly as inserted (`get_vector`), in the form the Lean `nodeOf` predicts;
+//  * `EmbeddingStorage::distance_dense` / `distance_sparse` of a node = the same distance of the DENSE
+//    node of the same vector (representation independence; Lean: distance_dense_is_representation_independent)
+//    = the distance the Lean model's exact ingredients give;
+//  * `search_with_ef` and `search_sparse`: distinct in-range ids, at most k, best first, every id with
+//    the TRUE score of its vector under the index's metric; in the small-index regime the exact top-k.
+
+struct StCase {
+    metric: Metric,
+    cfg: (usize, usize, usize),
+    nodes: Vec<(Vec<i64>, St)>,
+    queries: Vec<(Vec<i64>, usize, usize)>,
+}
+
+/// the f32 distance `distance_dense` returns for exact ingredients (p, r) and |q|² = a
+fn dist_f32(m: Metric, a: i64, p: i64, r: i64) -> f32 {
+    match m {
+        Metric::Cos => {
+            let (qm, sm) = ((a as f32).sqrt(), (r as f32).sqrt());
+            if sm == 0.0 || qm == 0.0 { 1.0 } else { 1.0 - (p as f32 / (sm * qm)) }
+        }
+        Metric::Euc => (p as f32).sqrt(),
+        Metric::Dot => -(p as f32),
+    }
+}
+fn dist_close(m: Metric, x: f32, y: f32) -> bool {
+    // Euclidean and dot-product distances of small integer vectors are exact in both representations;
+    // the cosine arms round differently (f64 in SparseVector, f32 SIMD in the dense arm)
+    x.to_bits() == y.to_bits() || (x == y) || (m == Metric::Cos && (f64::from(x) - f64::from(y)).abs() <= 1e-5)
+}
+
+/// runs one case on the real index; `model`: also ask the Lean model (correspondence).  Returns the
+/// violations seen as (site, kind, what).
+fn st_run(case: &StCase, mut model: Option<(&mut Report, &mut Model)>) -> Vec<(String, &'static str, String)> {
+    let mut out: Vec<(String, &'static str, String)> = Vec::new();
+    let m = case.metric;
+    let hm = m.hnsw();
+    let (cm, cm0, efc) = case.cfg;
+    let cfg = HNSWConfig { m: cm, m0: cm0, ef_construction: efc, ef_search: 50, distance_metric: hm, ..HNSWConfig::default() };
+    let idx = HNSWIndex::with_config(cfg);
+    let n = case.nodes.len();
+    for (i, (v, st)) in case.nodes.iter().enumerate() {
+        let vf = f32s(v);
+        let id = match guarded(AssertUnwindSafe(|| insert_st(&idx, vf.clone(), *st))) {
+            Ok(id) => id,
+            Err(p) => {
+                out.push((format!("tensor_store.hnsw.insert[{}]", st.name()), "panic", p));
+                return out;
+            }
+        };
+        let back = idx.get_vector(id);
+        if id != i || back.as_deref() != Some(vf.as_slice()) {
+            out.push(("tensor_store.hnsw.get_vector".into(), "roundtrip_not_identity", format!("node {id} inserted {} as {v:?} reads back {back:?}", st.name())));
+        }
+        if let Some((rep, md)) = model.as_mut() {
+            let tag = match idx.get_embedding(id) {
+                Some(EmbeddingStorage::Dense(_)) => "dense".to_string(),
+                Some(EmbeddingStorage::Sparse(sv)) => format!("sparse:{}", ints(&sv.positions().iter().map(|p| i64::from(*p)).collect::<Vec<_>>())),
+                _ => "other".to_string(),
+            };
+            rep.hit(&format!("hnsw.storage.node.{}.{}", st.name(), tag.split(':').next().unwrap_or("")));
+            let imp = format!("ok {tag} {}", back.as_deref().and_then(to_ints).map_or("?".to_string(), |x| ints(&x)));
+            let ans = md.ask(&format!("enode {} {}", st.name(), ints(v)));
+            rep.compare("hnsw.storage.node", || json!({"storage": st.name(), "v": v}), &imp, &ans);
+        }
+    }
+    // the shadow the property is judged against: node id -> vector
+    let mut sp = Space::default();
+    for (i, (v, _)) in case.nodes.iter().enumerate() {
+        sp.items.insert(format!("n{i:03}"), (v.clone(), vec![]));
+    }
+    for (q, k, ef) in &case.queries {
+        if q.is_empty() || nsq(q) == 0 || *k == 0 {
+            continue;
+        }
+        let qf = f32s(q);
+        let qs = SparseVector::from_dense(&qf);
+        let a = nsq(q);
+        for (i, (v, st)) in case.nodes.iter().enumerate() {
+            let Some(e) = idx.get_embedding(i) else { continue };
+            let twin = EmbeddingStorage::Dense(f32s(v));
+            for mm in [Metric::Cos, Metric::Euc, Metric::Dot] {
+                let (d, dt) = (e.distance_dense(&qf, mm.hnsw()), twin.distance_dense(&qf, mm.hnsw()));
+                if !dist_close(mm, d, dt) {
+                    out.push(("tensor_store.embedding_storage.distance_dense".into(), "representation_dependent", format!("{} node {v:?} ({}) to query {q:?} under {}: {d}, the dense node of the same vector: {dt}", st.name(), if e.is_sparse() { "held sparse" } else { "held dense" }, mm.name())));
+                }
+                let (ds, dts) = (e.distance_sparse(&qs, mm.hnsw()), twin.distance_dense(&qf, mm.hnsw()));
+                if !dist_close(mm, ds, dts) {
+                    out.push(("tensor_store.embedding_storage.distance_sparse".into(), "representation_dependent", format!("{} node {v:?} to sparse query {q:?} under {}: {ds}, dense node to dense query: {dts}", st.name(), mm.name())));
+                }
+                if let Some((rep, md)) = model.as_mut() {
+                    for (cmd, got) in [("edist", d), ("edists", ds)] {
+                        let ans = md.ask(&format!("{cmd} {} {} {} {}", mm.name(), st.name(), ints(v), ints(q)));
+                        let f: Vec<i64> = ans.split(' ').skip(1).filter_map(|x| x.parse().ok()).collect();
+                        let imp = if f.len() == 2 && dist_close(Metric::Cos, got, dist_f32(mm, a, f[0], f[1])) { ans.clone() } else { format!("distance {got}") };
+                        rep.compare(&format!("hnsw.storage.{cmd}"), || json!({"metric": mm.name(), "storage": st.name(), "v": v, "q": q}), &imp, &ans);
+                    }
+                }
+            }
+        }
+        let small = |ef: usize| n <= cm0 && n <= efc && n <= ef.max(*k);
+        let judge = |site: &str, ef: usize, res: Result<Vec<(usize, f32)>, String>, out: &mut Vec<(String, &'static str, String)>| match res {
+            Err(p) => out.push((site.to_string(), "panic", p)),
+            Ok(res) => {
+                if res.iter().any(|x| x.0 >= n) {
+                    out.push((site.to_string(), "node_out_of_range", format!("{res:?}")));
+                    return;
+                }
+                let named: Vec<(String, f32)> = res.iter().map(|(i, sc)| (format!("n{i:03}"), *sc)).collect();
+                let mut v = Vec::new();
+                oracle_page(site, &named, q, *k, 0, *k, m, &sp, None, false, !small(ef), &mut v);
+                for x in v {
+                    let kind = if x.kind == "missed_match" { "not_topk" } else { x.kind };
+                    out.push((site.to_string(), kind, format!("query {q:?} k={k} ef={ef}: {}", x.what)));
+                }
+            }
+        };
+        judge("tensor_store.hnsw.search_with_ef", *ef, guarded(AssertUnwindSafe(|| idx.search_with_ef(&qf, *k, *ef))), &mut out);
+        judge("tensor_store.hnsw.search_sparse", 50, guarded(AssertUnwindSafe(|| idx.search_sparse(&qs, *k))), &mut out);
+        if let Some((rep, _)) = model.as_mut() {
+            rep.hit(if small(*ef) { "hnsw.storage.small_index_regime" } else { "hnsw.storage.approximate_regime" });
+        }
+    }
+    out
+}
+
+fn st_json(case: &StCase) -> Value {
+    json!({
+        "metric": case.metric.name(),
+        "config": {"m": case.cfg.0, "m0": case.cfg.1, "ef_construction": case.cfg.2},
+        "nodes": case.nodes.iter().map(|(v, st)| format!("{} {}", st.name(), ints(v))).collect::<Vec<_>>(),
+        "queries": case.queries.iter().map(|(q, k, ef)| format!("{} k={k} ef={ef}", ints(q))).collect::<Vec<_>>(),
+    })
+}
+
+fn st_case(rep: &mut Report, md: &mut Model, reported: &mut BTreeSet<String>, stream: &str, case: StCase) {
+    let viol = st_run(&case, Some((rep, md)));
+    let sparse_nodes = case.nodes.iter().filter(|(v, st)| *st != St::Dense && !v.is_empty() && 2 * v.iter().filter(|x| **x != 0).count() <= v.len() || *st == St::Sparse).count();
+    rep.hit(&format!("hnsw.storage.metric.{}", case.metric.name()));
+    rep.hit(if sparse_nodes > 0 { "hnsw.storage.has_sparse_nodes" } else { "hnsw.storage.all_dense_nodes" });
+    let key = serde_json::to_string(&st_json(&case)).unwrap_or_default();
+    rep.case(stream, if case.nodes.len() > 1 && sparse_nodes > 0 { Some(&key) } else { None });
+    if let Some((site, kind, what)) = viol.into_iter().next() {
+        // shrink: fewer nodes, then the one query that still fails
+        let same = |c: &StCase| st_run(c, None).iter().any(|(s, k, _)| *s == site && *k == kind);
+        let mut fails = |cand: &[(Vec<i64>, St)]| same(&StCase { metric: case.metric, cfg: case.cfg, nodes: cand.to_vec(), queries: case.queries.clone() });
+        let nodes = shrink_list(&case.nodes, &mut fails);
+        let mut small = StCase { metric: case.metric, cfg: case.cfg, nodes, queries: case.queries.clone() };
+        if let Some(qi) = (0..small.queries.len()).find(|i| same(&StCase { metric: small.metric, cfg: small.cfg, nodes: small.nodes.clone(), queries: vec![small.queries[*i].clone()] })) {
+            small.queries = vec![small.queries[qi].clone()];
+        }
+        let what = st_run(&small, None).into_iter().find(|(s, k, _)| *s == site && *k == kind).map_or(what, |x| x.2);
+        let class = format!("{site}/{kind}");
+        if reported.insert(class.clone()) {
+            rep.violation(&class, &what, json!({"case": st_json(&small), "found_in_stream": stream}));
+        } else {
+            rep.hit(&format!("violation.repeat.{class}"));
+        }
+    }
+}
+
+fn st_stream(rep: &mut Report, md: &mut Model, root: &Rng, scale: u64, directed_only: bool) {
+    let mut reported = BTreeSet::new();
+    let data: Vec<Vec<i64>> = vec![vec![1, 0, 0, 0, 0, 0, 0, 0], vec![0, 0, 0, 0, 0, 0, 0, 3], vec![0, 2, 0, 0, 0, 0, 0, 0], vec![1, 1, 1, 1, 1, 1, 1, 1]];
+    let qs: Vec<(Vec<i64>, usize, usize)> = vec![(vec![1, 0, 0, 0, 0, 0, 0, 2], 4, 50), (vec![1, 0, 0, 0, 0, 0, 0, 2], 1, 1), (vec![2, 0, 0, 0, 0, 0, 0, 0], 4, 50), (vec![0, 0, 5, -1, 0, 0, 0, 0], 3, 50)];
+    if directed_only {
+        // the minimal history first: four vectors, three of them highly sparse, a query with mass where
+        // they are zero; every metric x every storage, default configuration (exact regime) ...
+        for m in [Metric::Euc, Metric::Dot, Metric::Cos] {
+            for st in [St::Auto, St::Sparse, St::Dense] {
+                st_case(rep, md, &mut reported, "hnsw.storage.directed", StCase { metric: m, cfg: (16, 32, 200), nodes: data.iter().map(|v| (v.clone(), st)).collect(), queries: qs.clone() });
+            }
+            // ... mixed node by node, and with a configuration that prunes (m = m0 = 2: node-to-node distances decide)
+            let mixed: Vec<(Vec<i64>, St)> = data.iter().chain(data.iter()).enumerate().map(|(i, v)| (v.clone(), [St::Sparse, St::Dense, St::Auto][i % 3])).collect();
+            st_case(rep, md, &mut reported, "hnsw.storage.directed", StCase { metric: m, cfg: (2, 2, 3), nodes: mixed, queries: qs.clone() });
+        }
+        return;
+    }
+    let mut r = root.fork("hnsw.storage");
+    for _ in 0..110 * scale {
+        let metric = *r.pick(&[Metric::Euc, Metric::Euc, Metric::Dot, Metric::Cos]);
+        let cfg = *r.pick(&[(16usize, 32usize, 200usize), (16, 32, 200), (2, 2, 3), (2, 4, 8), (3, 3, 1)]);
+        let dim = *r.pick(&[2usize, 4, 5, 8, 9, 16]);
+        let n = 1 + r.below(if cfg.0 == 16 { 10 } else { 24 }) as usize;
+        let one = *r.pick(&[Some(St::Auto), Some(St::Auto), Some(St::Sparse), None]);
+        let mut pool: Vec<Vec<i64>> = Vec::new();
+        let mut nodes = Vec::new();
+        for _ in 0..n {
+            let v = sparse_vec(&mut r, dim, &pool);
+            pool.push(v.clone());
+            nodes.push((v, one.unwrap_or_else(|| *r.pick(&[St::Dense, St::Auto, St::Sparse]))));
+        }
+        let queries = (0..2 + r.below(2)).map(|_| (off_support_query(&mut r, dim, &pool), *r.pick(&[1usize, 2, 3, 50]), *r.pick(&[1usize, 3, 50]))).collect();
+        st_case(rep, md, &mut reported, "hnsw.storage", StCase { metric, cfg, nodes, queries });
     }
 }
 
@@ -2251,6 +2936,19 @@ impl NsRunner {
                     let bare = rk.strip_prefix("emb:").unwrap_or(rk).to_string();
                     if cn == "_default" && self.default_index_live && (self.ever.contains(&(None, bare)) || self.ever.contains(&(None, rk.clone()))) {
                         return "default_cache_slot_shared";
+                    }
+                }
+            }
+        }
+        // the same overlap seen from the other side: a key stored in `c` through the API is MISSING (or
+        // scored with another vector) because some `(c2, k2)`, `c2 != c`, that was stored has its storage
+        // key and overwrote / deleted it
+        if let Some(cn) = c {
+            for ((cc, k1), _) in &self.shadow {
+                if cc.as_ref() == Some(cn) {
+                    let sk = format!("coll:{cn}:emb:{k1}");
+                    if self.ever.iter().any(|(c2, k2)| c2.as_ref().map_or(false, |c2| c2 != cn && format!("coll:{c2}:emb:{k2}") == sk)) {
+                        return "collection_prefix_overlap";
                     }
                 }
             }
@@ -2729,6 +3427,12 @@ fn main() {
         for (name, ops) in directed() {
             run_seq(&mut cx, &format!("directed.{name}"), &ops);
         }
+        // node representations x index metrics: a collection answered from a cached index of its metric,
+        // then the index itself with every way of inserting a vector
+        for (name, m, ops) in emb_directed() {
+            run_emb(&mut cx, &format!("directed.emb.{name}"), m, &ops);
+        }
+        st_stream(cx.rep, cx.m, &root, scale, true);
         ns_stream(&mut cx, &root, scale);
         for (focus, name, n) in [(0u64, "default", 1250u64), (1, "named", 900), (2, "mixed", 550)] {
             let base = root.fork(name);
@@ -2738,9 +3442,11 @@ fn main() {
                 run_seq(&mut cx, name, &ops);
             }
         }
+        emb_stream(&mut cx, &root, scale);
     }
     bits_stream(&mut rep, &mut m, &root, scale);
     hnsw_stream(&mut rep, &mut m, &root, scale);
+    st_stream(&mut rep, &mut m, &root, scale, false);
     observe_foreign_index(&mut rep);
     observe_concurrent_build(&mut rep);
 
@@ -2749,6 +3455,9 @@ fn main() {
         "err.coll_not_found", "err.batch_validation", "op.update_metadata", "op.remove_metadata_field", "op.batch_store_embeddings", "op.search_similar_paginated", "cfg.parallel_threshold=2",
         "hnsw.multi_layer", "hnsw.n>m0(pruning possible)", "hnsw.recall.approximate", "hnsw.recall.exact_topk", "hnsw.small_index_regime", "hnsw.data.non_integer", "hnsw.metric.cosine", "hnsw.metric.euclid",
         "hnsw.metric.dot", "search.small_live_index.checked_exact", "search.explicit_small_index.checked_exact", "op.search_with_hnsw", "op.search_with_hnsw_and_metric", "ns.model.index", "ns.model.ranked",
+        "emb.search.via_index.euclid.sparse_nodes", "emb.search.via_index.dot.sparse_nodes", "emb.search.via_index.cosine.sparse_nodes", "emb.search.via_index.euclid.dense_nodes", "emb.model.ranked.euclid",
+        "hnsw.storage.node.auto.sparse", "hnsw.storage.node.auto.dense", "hnsw.storage.node.sparse.sparse", "hnsw.storage.metric.euclid", "hnsw.storage.metric.dot", "hnsw.storage.metric.cosine",
+        "hnsw.storage.small_index_regime", "hnsw.storage.approximate_regime", "hnsw.node_storage.auto", "hnsw.node_storage.mixed", "explicit_index.euclid.auto", "explicit_index.dot.auto", "explicit_index.cosine.auto",
     ]
         .iter()
         .map(|s| s.to_string())
@@ -2756,8 +3465,10 @@ fn main() {
     rep.note("scores: compared bit-for-bit against a recomputation of the engine's own f32 operation order from exact integers; the 1e-5 fallback (counted in distribution as score.within_1e-5(not-proof)) is an oracle, not a proof");
     rep.note("ties: the store's scan order is a HashSet iteration order, so equal scores are compared as tie classes (cosine: scores within 1e-6 relative are merged into one class, counted as rank.cosine_near_tie_merged)");
     rep.note("default / named / mixed streams: collection names are [a-z0-9]+, keys are [a-z0-9]+ or such a key behind the storage prefix (emb:k0 next to k0); the index over a named collection is built by the harness with the default (cosine) HNSW metric and only for cosine collections; when a later create_collection gives such a collection another metric the harness, as the owner of that index, invalidates it (sent to the model as the `invalidate_hnsw_cache` operation)");
+    rep.note("HNSW stream, node storage: half of the integer-data cases under the Euclidean / dot-product metric insert their nodes with insert_auto / insert_sparse / a mix; the graph is still compared insert by insert, which ties the node-to-node distances pruning takes (private distance_embeddings: sparse-sparse merge, sparse-dense) to the distance_dense values the model is given (exact on integer data, so equal bit for bit whatever the representation)");
     rep.note("HNSW stream: the model is given the level each insert drew (harness copy of the private xorshift / ln formula) and the distances the real index computes (EmbeddingStorage::distance_dense on the stored embedding, as order keys); answers are compared node id for node id, so the std BinaryHeap tie order is part of the correspondence; the score reported for a node is checked to be to_similarity of that node's distance");
     rep.note("small_index_is_exact: every answer the engine takes from a live cached index over <= 32 vectors (default HNSWConfig) and every HNSW-stream search with n <= m0, n <= ef_construction, n <= max(ef,k) is compared with the exact top-k, as the Lean theorem small_index_search_is_exact predicts");
-    rep.note("not modelled: HNSW storage strategies other than dense, recall beyond the small-index regime, SIMD rounding of engine scores on non-integer data, IVF indexes, entity embeddings, persistence, non-default engine configuration other than parallel_threshold");
+    rep.note("node representations (directed.explicit-index-sparse-nodes-each-metric, op search_with_hnsw with an index of each metric built with the Dense / Auto storage strategy, cached indexes built with insert / insert_auto / insert_sparse; streams directed.emb.* / emb: one collection of each metric answered from a cached index OF THAT METRIC with every node storage, against the Lean machine ECol; streams hnsw.storage.directed / hnsw.storage: the real HNSWIndex of each metric with nodes inserted by insert / insert_auto / insert_sparse, one strategy or mixed): highly sparse integer vectors and queries with mass outside the stored vectors' support; every returned key / node id must carry its TRUE score under the index's metric (class <entry point>/wrong_score, with_cached_index:wrong_score), every node must read back exactly as inserted (tensor_store.hnsw.get_vector/roundtrip_not_identity) and EmbeddingStorage::distance_dense / distance_sparse of a node must equal the distance of the dense node of the same vector (tensor_store.embedding_storage.distance_dense/representation_dependent: Euclidean and dot-product bit for bit, cosine within 1e-5, where the sparse arm rounds in f64 and the dense arm in f32); the Lean model supplies the node form (enode) and the exact ingredients of every distance (edist, edists)");
+    rep.note("not modelled: quantized / product-quantized / binary / tensor-train HNSW nodes (lossy by design), recall beyond the small-index regime, SIMD rounding of engine scores on non-integer data, IVF indexes, entity embeddings, persistence, non-default engine configuration other than parallel_threshold");
     rep.write(&args.out);
 }
